@@ -303,7 +303,9 @@ def main():
         "checks": [CHECKS[k] for k in sorted(CHECKS)],
         "not_applicable": [{"property_id": p, "reason": NOT_YET.get(p, "check not built yet at this commit (build in progress, see DESIGN.md section 11)")}
                            for p in ALL if p not in CHECKS],
-        "notes": "All checks: ./check <ID> --tier quick|thorough; VERIF_SEED honoured; evidence rewritten on every run; "
+        "notes": "Every check also runs an import-order / first-use probe of its property's functions in five fresh interpreters "
+                 "(harness/isolated.py) and starts with the package in use (common.package_in_use); magnitude comparisons are NaN-proof. "
+                 "All checks: ./check <ID> --tier quick|thorough; VERIF_SEED honoured; evidence rewritten on every run; "
                  "known findings in /verif/known_findings.json.",
     }
     with open(os.path.join(VERIF, "MANIFEST.json"), "w") as f:
